@@ -27,6 +27,7 @@ RULE = (
 RULE += (" " + 'Pipeline names are flat or path-like with equal basenames (the permutation sweep runs with both), and user pipelines may carry their own value_placeholders item.')
 RULE += (" File cases: 2-6 pipeline YAML files in prefix-related directories (conf, conf.d, conf-extra, conf/sub ...) with priority ties, named as directories, as single files and mixed, in several argument orders; the combined order must be (priority, path) for every way of naming.")
 RULE += (" A quarter of the conversions enter through convert_rule(rule, output_format) as the first call on a fresh backend (per-query results, no finalizers).")
+RULE += (" A third of the conversions use a backend class whose default output format is the alternative one and name no format.")
 ASSUMPTIONS = [
     "expected outputs are computed by string construction in the model, not by pySigma",
     "each conversion uses a fresh backend class (backend-level sharing is C15's subject)",
@@ -79,7 +80,7 @@ def model_output(specs: list[dict], fmt: str, finalize: bool = True):
     return out
 
 
-def _backend(pipeline):
+def _backend(pipeline, default_format=None):
     from collections import defaultdict
     from sigma.processing.pipeline import ProcessingPipeline
 
@@ -94,6 +95,8 @@ def _backend(pipeline):
     cls = make_backend_class({}, {"backend_processing_pipeline": bp,
                                   "output_format_processing_pipeline": defaultdict(ProcessingPipeline, default=fmt_default(), alt=fmt_alt()),
                                   "query_expression": "{query} ##k={state[k]}", "state_defaults": {"k": "none"}})
+    if default_format:  # a backend whose default output format is not called 'default'
+        cls = type(cls.__name__ + "DefaultAlt", (cls,), {"default_format": default_format})
     return cls(pipeline)
 
 
@@ -233,6 +236,10 @@ def check_case(case: dict) -> Outcome:
             elif kind == "convert":
                 k = op[1] % len(objs)
                 fmt = op[2]
+                dfmt = None
+                if fmt == "altdef":  # the backend's default format is 'alt' and the caller names no format
+                    fmt, dfmt = "alt", "alt"
+                    out.label("default-format-not-named-default")
                 cls = "general" if len(set(objs[k][2])) == len(objs[k][2]) else "same-items-twice-in-one-sum"
                 if not clean(k):
                     reused = True
@@ -243,9 +250,9 @@ def check_case(case: dict) -> Outcome:
                 if via_rule:  # first call on a fresh backend is convert_rule with the output format
                     out.label("convert_rule-entry")
                     from sigma.rule import SigmaRule as _SR
-                    got = _backend(objs[k][0]).convert_rule(_SR.from_dict(copy.deepcopy(RULE_DOC)), fmt)
+                    got = _backend(objs[k][0], dfmt).convert_rule(_SR.from_dict(copy.deepcopy(RULE_DOC)), None if dfmt else fmt)
                 else:
-                    got = _backend(objs[k][0]).convert(SigmaCollection.from_dicts([copy.deepcopy(RULE_DOC)]), fmt)
+                    got = _backend(objs[k][0], dfmt).convert(SigmaCollection.from_dicts([copy.deepcopy(RULE_DOC)]), None if dfmt else fmt)
                 for b in objs[k][2]:
                     owner[b] = "backend"  # the backend adds the pipeline to its own: items are re-owned
                 if got != want:
@@ -342,9 +349,9 @@ def cases(draw, reuse: bool):
                 k = nobj - 1
                 if k in used:
                     continue
-            ops.append(["convert", k, draw(st.sampled_from(["default", "alt"]))] + (["rule"] if draw(st.integers(0, 3)) == 0 else []))
+            ops.append(["convert", k, draw(st.sampled_from(["default", "alt", "altdef"]))] + (["rule"] if draw(st.integers(0, 3)) == 0 else []))
     if not any(o[0] == "convert" for o in ops):
-        ops.append(["convert", nobj - 1, draw(st.sampled_from(["default", "alt"]))])
+        ops.append(["convert", nobj - 1, draw(st.sampled_from(["default", "alt", "altdef"]))])
     return {"specs": specs, "ops": ops}
 
 
